@@ -13,7 +13,8 @@ import numpy as _np
 import z3
 
 from . import core, uf
-from .core import (OutsideBound, SBool, SComplex, SInt, SReal, active, cur)
+from .core import (OutsideBound, SBool, SComplex, SInt, SReal, SymArray,
+                   active, as_symarray, cur)
 
 PROXY = (SReal, SComplex, SInt, SBool, core.SBV)
 
@@ -31,7 +32,7 @@ def is_sym(x):
 def _objfill(shape, val):
     out = _np.empty(shape, dtype=object)
     out.fill(val)   # shared immutable proxy objects
-    return out
+    return out.view(SymArray)
 
 
 def _rd(dtype):
@@ -68,7 +69,7 @@ def elementwise(f, a):
         out = _np.empty(a.shape, dtype=object)
         for idx in _np.ndindex(*a.shape):
             out[idx] = f(a[idx])
-        return out
+        return out.view(SymArray)
     if isinstance(a, (list, tuple)):
         return elementwise(f, _np.array(a, dtype=object))
     return f(a)
@@ -511,12 +512,12 @@ class SymNP(types.ModuleType):
 
     def array(self, obj, dtype=None, **kw):
         if active() and is_sym(obj) and _dtype_is_numeric_float(dtype):
-            return _np.array(obj, dtype=object, **kw)
+            return as_symarray(_np.array(obj, dtype=object, **kw))
         return _np.array(obj, dtype=_rd(dtype), **kw)
 
     def asarray(self, obj, dtype=None, **kw):
         if active() and is_sym(obj) and _dtype_is_numeric_float(dtype):
-            return _np.asarray(obj, dtype=object, **kw)
+            return as_symarray(_np.asarray(obj, dtype=object, **kw))
         return _np.asarray(obj, dtype=_rd(dtype), **kw)
 
 
